@@ -219,12 +219,55 @@ def run_corpus(msgs):
     return p
 
 
+def run_large(cases):
+    """the large structures of C01 in the encode direction (plain and compiled encoder)"""
+    from mc.checks import c01
+    import contextlib, io
+    p = Partial()
+    for case in cases:
+        p.n['exec'] += 1
+        try:
+            b, spec, subs, notes = c01.large_build(case)
+        except (codec.RefError, ValueError):
+            p.n['envelope_skipped'] += 1
+            continue
+        if notes:
+            p.n['envelope_skipped'] += 1
+            continue
+        port = codec.encode.last_port
+        fj = message.flat_json(spec, CC.impl_input_values(subs, port, spec.compressed))
+        for which in ('plain', 'compiled'):
+            with contextlib.redirect_stderr(io.StringIO()):
+                try:
+                    enc = CC.encoder() if which == 'plain' else CC.compiled_encoder()
+                    got = enc.process(fj, wire_template_data=False).serialized_bytes
+                except Exception as e:
+                    p.violation('large|encode-raises:%s|%s' % (type(e).__name__, case[0].split('-')[0]), {'case': list(case), 'encoder': which},
+                                repr(e)[:200])
+                    continue
+            p.outcome((case[0].split('-')[0], which, spec.compressed))
+            if not spec.compressed:
+                if got != b:
+                    k = next((i for i, (x, y) in enumerate(zip(got, b)) if x != y), min(len(got), len(b)))
+                    p.violation('large|bytes|%s' % case[0].split('-')[0], {'case': list(case), 'encoder': which},
+                                '%d bytes, independently built %d; first difference at octet %d' % (len(got), len(b), k))
+            else:
+                d = CC.judge_compressed(got, spec, subs, list(case[1]))
+                if d:
+                    p.violation('large|%s|%s' % (d[0], case[0].split('-')[0]), {'case': list(case), 'encoder': which}, d[1])
+    p.n['nodes'], p.n['edges'] = p.n['exec'] + 1, p.n['exec']
+    return p
+
+
 def replay(part, case):
     if part.startswith('tree'):
         return CC.replay_tree(case)
     if part == 'tableB':
         o, d = sweep_case(case)
         return [{'sig': d[0], 'detail': d[1]}] if d else []
+    if part == 'large':
+        p = run_large([tuple(case['case'])])
+        return [{'sig': v['sig'], 'detail': v['detail']} for v in p.viol if v['case']['encoder'] == case['encoder']]
     if part == 'fxy':
         d = fxy_case(case)
         return [{'sig': d[0], 'detail': d[1]}] if d else []
@@ -289,6 +332,12 @@ def main(tier, seed):
     p.n['nodes'], p.n['edges'] = len(cases) + 1, len(cases)
     p.sample(cases[5])
     rep.add_part('fxy', p, bounds={'cases': len(cases)})
+    from mc.checks import c01 as _c01
+    lc = _c01.large_cases(tier)
+    p = merge_all(run_shards(run_large, [[c] for c in lc]))
+    rep.add_part('large', p, bounds={'cases': [c[0] for c in lc]},
+                 rule='the large structures of C01 (counts 127..1000, fixed 255, nested, deep nests, 100-bit bitmap, wide fields, '
+                      '255..300 subsets) encoded by the plain and the compiled encoder')
 
     maxb = 3000 if tier == 'quick' else None
     msgs = list(corpus.messages(max_bytes=maxb))
